@@ -64,6 +64,74 @@ class FieldAnalysis:
     def __init__(self, prog):
         self.prog = prog
         self._param_memo = {}
+        self._upvars = {}
+        self._all = {}
+
+    # -- closures capture disjoint fields (edition 2021): `self.unspent_slips` inside a closure is the upvar
+    #    `(*_1)._ref__self__unspent_slips`, with no Wallet field projection. Resolve upvars through the parent.
+    def upvar_fields(self, body):
+        """{upvar index: [(adt, field), ...] path of the captured place} for a (non-coroutine) closure body"""
+        if body.path in self._upvars:
+            return self._upvars[body.path]
+        out = {}
+        self._upvars[body.path] = out
+        parent = self.prog.bodies.get(body.parent) if body.kind == "Closure" and body.parent else None
+        if parent is None:
+            return out
+        from .expr import Chaser, walk
+        ch = Chaser(parent)
+        for blk in parent.blocks:
+            for st in blk["s"]:
+                if st[0] == "=" and st[2][0] == "agg" and st[2][1][0] in ("closure", "coroutine") and st[2][1][1] == body.path:
+                    for i, op in enumerate(st[2][2]):
+                        e = ch.origin(op)
+                        path = []
+                        for x in walk(e):
+                            if x[0] == "field":
+                                path.append((x[2], x[3]))
+                        path.reverse()
+                        # expand captured upvars of the parent itself
+                        full = []
+                        for (adt, f) in path:
+                            if adt == parent.path:
+                                idx = self._upvar_index(parent, f)
+                                full.extend(self.upvar_fields(parent).get(idx, []))
+                            else:
+                                full.append((adt, f))
+                        out[i] = full
+        return out
+
+    def _upvar_index(self, body, name):
+        for n, pl in body.debug_places():
+            pass
+        for blk in body.blocks:
+            for st in blk["s"]:
+                for pl in _places_of_stmt(st):
+                    for pr in pl[1]:
+                        if isinstance(pr, list) and pr[0] == "f" and pr[2] == body.path and pr[3] == name:
+                            return pr[1]
+        return None
+
+    def fields_of_place(self, body, place):
+        """[(adt, field)] along a place, with closure upvars expanded to the captured place"""
+        out = []
+        for pr in place[1]:
+            if isinstance(pr, list) and pr[0] == "f":
+                if pr[2] == body.path and place[0] == 1 and body.kind == "Closure" and not body.is_coroutine:
+                    out.extend(self.upvar_fields(body).get(pr[1], []))
+                else:
+                    out.append((pr[2], pr[3]))
+        return out
+
+    def has_field(self, body, place, adt_suffix, field):
+        """None, or 'whole' / 'sub' when the place is exactly the field / a sub-place of it"""
+        fs = self.fields_of_place(body, place)
+        for i, (adt, f) in enumerate(fs):
+            if f == field and adt.endswith(adt_suffix):
+                if i == len(fs) - 1 and not any(isinstance(pr, list) and pr[0] in ("i", "c", "s", "d") for pr in place[1]):
+                    return "whole"
+                return "sub"
+        return None
 
     def sites(self, body, adt_suffix, field):
         """mutation-relevant sites of (adt, field) in one body"""
@@ -73,23 +141,29 @@ class FieldAnalysis:
             for i, st in enumerate(blk["s"]):
                 if st[0] != "=":
                     continue
-                fi = place_has_field(st[1], adt_suffix, field)
-                if fi is not None:
-                    whole = fi == len(st[1][1]) - 1
-                    out.append(("assign", bb, i, "replace" if whole else "elem"))
+                w = self.has_field(body, st[1], adt_suffix, field)
+                if w is not None:
+                    out.append(("assign", bb, i, "replace" if w == "whole" else "elem"))
                 rv = st[2]
-                if rv[0] in ("ref", "raw") and rv[1] in ("mut", "Mut") and place_has_field(rv[2], adt_suffix, field) is not None:
-                    sub = place_has_field(rv[2], adt_suffix, field) != len(rv[2][1]) - 1
-                    roots.add((st[1][0], sub))
-                elif rv[0] == "use" and rv[1][0] == "mv" and place_has_field(rv[1][1], adt_suffix, field) is not None:
-                    # the field is moved out wholesale (e.g. `let txs = self.transactions;` / mem::take lowering)
-                    if place_has_field(rv[1][1], adt_suffix, field) == len(rv[1][1][1]) - 1 and body.ty(st[1][0])["k"] not in ("ref", "refmut"):
-                        out.append(("assign", bb, i, "remove"))
+                if rv[0] in ("ref", "raw") and rv[1] in ("mut", "Mut"):
+                    w2 = self.has_field(body, rv[2], adt_suffix, field)
+                    if w2 is not None:
+                        roots.add((st[1][0], w2 == "sub"))
+                elif rv[0] == "use" and rv[1][0] in ("cp", "mv"):
+                    w2 = self.has_field(body, rv[1][1], adt_suffix, field)
+                    if w2 == "whole":
+                        ty = body.ty(st[1][0])
+                        if ty["k"] == "refmut" and not st[1][1]:
+                            # a captured `&mut field` upvar copied/reborrowed into a local
+                            roots.add((st[1][0], False))
+                        elif rv[1][0] == "mv" and ty["k"] not in ("ref", "refmut"):
+                            # the field is moved out wholesale (e.g. `let txs = self.transactions;`)
+                            out.append(("assign", bb, i, "remove"))
             t = blk["t"]
             if t["k"] == "call":
-                fi = place_has_field(t["dest"], adt_suffix, field)
-                if fi is not None:
-                    out.append(("assign", bb, None, "replace" if fi == len(t["dest"][1]) - 1 else "elem"))
+                w = self.has_field(body, t["dest"], adt_suffix, field)
+                if w is not None:
+                    out.append(("assign", bb, None, "replace" if w == "whole" else "elem"))
         for (root, sub) in roots:
             for s in self.uses_of_mut_ref(body, root):
                 if sub and s[3] in ("insert", "remove", "replace"):
@@ -192,3 +266,29 @@ def strongest(kinds):
                 return "replace"
             return k
     return "read"
+
+
+def _places_of_stmt(st):
+    if st[0] != "=":
+        return
+    yield st[1]
+    rv = st[2]
+    k = rv[0]
+    if k == "use" and rv[1][0] in ("cp", "mv"):
+        yield rv[1][1]
+    elif k in ("ref", "raw"):
+        yield rv[2]
+    elif k == "cast" and rv[2][0] in ("cp", "mv"):
+        yield rv[2][1]
+    elif k == "bin":
+        for o in (rv[2], rv[3]):
+            if o[0] in ("cp", "mv"):
+                yield o[1]
+    elif k == "un" and rv[2][0] in ("cp", "mv"):
+        yield rv[2][1]
+    elif k == "agg":
+        for o in rv[2]:
+            if o[0] in ("cp", "mv"):
+                yield o[1]
+    elif k == "discr":
+        yield rv[1]
